@@ -555,7 +555,7 @@ def main(chk):
 
     # whole sessions with statement caching on (Client::handle executed): every Execute runs the text the client prepared under that name,
     # a valid program never sees 'prepared statement does not exist'
-    hobl.handle_obligations(chk, chk.program('on'), {'C08'}, ['cache', 'named'])
+    hobl.handle_obligations(chk, chk.program('on'), {'C08'}, ['cache', 'named', 'two-clients'])
 
 if __name__ == '__main__':
     run_check('C08', main)
